@@ -42,6 +42,18 @@ class _ControlGen:
     def clean(self, stmt):
         for v in sorted(stmt.get_read_variables()):
             self.emit("use " + v)
+
+
+def _control_mutates(statement):
+    loops = statement.loops
+    loops.reverse()
+    return loops
+
+
+def _control_copies(statement):
+    loops = list(statement.loops)
+    loops.reverse()
+    return loops
 '''
 
 # Non-instances reviewed by hand (rule, function, construct) -> reason.  These
@@ -112,6 +124,104 @@ def check(run, P):
     _globals(run, P)
     _carried(run, P, T)
     _memoised(run, P)
+    _inputs(run, P, P2)
+    _plan(run, P)
+
+
+# {{{ interpreter: the plan is built in a fixed order
+
+def _plan(run, P):
+    run.rule("C15.plan", "the interpreter's execution plan is built by sorted walks over "
+             "the (unordered) roots and dependency sets", minimum=2)
+    f = P.func("dagrt.language.ExecutionController.update_plan")
+    loops = []
+    for fn in [f] + list(f.nested.values()):
+        for x in ast.walk(fn.node):
+            if isinstance(x, ast.For) and any(
+                    isinstance(y, ast.Call) and isinstance(y.func, ast.Name)
+                    and y.func.id in f.nested for y in ast.walk(x)):
+                if not any(x is z[1] for z in loops):
+                    loops.append((fn, x))
+    if len(loops) < 2:
+        raise AnalysisError("update_plan: walks over roots / dependencies not found")
+    for fn, lp in loops:
+        it = lp.iter
+        ok = isinstance(it, ast.Call) and dotted(it.func) in ("sorted", "natsorted")
+        run.ob("C15.plan", fn, lp, ok,
+               construct=f"for {norm(lp.target)} in {norm(it, 60)}",
+               why="independent statements are executed, and their events produced, in "
+                   "the order of this walk: over a set it changes with PYTHONHASHSEED")
+
+# }}}
+
+
+# {{{ the description is not changed in place
+
+_IN_PLACE = {"reverse", "sort", "append", "extend", "insert", "pop", "remove", "clear", "update",
+             "add", "discard", "setdefault", "popitem", "appendleft", "extendleft", "popleft"}
+
+
+def _input_mutations(f):
+    params = [p for p in f.params if p not in ("self", "cls")]
+    aliases = {}
+    for x in ast.walk(f.node):
+        if isinstance(x, ast.Assign) and len(x.targets) == 1 and isinstance(x.targets[0], ast.Name):
+            d = dotted(x.value)
+            if d and "." in d and d.split(".")[0] in params:
+                aliases[x.targets[0].id] = d
+    out = []
+    for x in ast.walk(f.node):
+        d = None
+        if isinstance(x, ast.Call) and isinstance(x.func, ast.Attribute) and x.func.attr in _IN_PLACE:
+            d = dotted(x.func.value)
+        elif isinstance(x, (ast.Assign, ast.Delete)):
+            for t in x.targets:
+                if isinstance(t, ast.Subscript):
+                    d = dotted(t.value)
+        if d is None:
+            continue
+        if (d.split(".")[0] in params and "." in d) or d in aliases:
+            out.append((x, aliases.get(d, d)))
+    return out
+
+
+def _inputs(run, P, P2):
+    run.rule("C15.input", "the generators and passes never change a container that "
+             "belongs to the description they were handed (a field of a parameter) "
+             "in place", minimum=3)
+    n_funcs = 0
+    hits = []
+    for m in P.repo_modules():
+        if not (m.name.startswith("dagrt.codegen") or m.name in ("dagrt.transform", "dagrt.data")):
+            continue
+        for f in m.functions.values():
+            n_funcs += 1
+            for x, what in _input_mutations(f):
+                hits.append((f, x, what))
+    for f, x, what in hits:
+        run.ob("C15.input", f, x, False,
+               construct=f"{norm(x, 70)} changes {what} in place",
+               why="the description outlives the generator object: the second generator "
+                   "(or the interpreter) given the same description sees it changed - a "
+                   "loop nest reversed in place comes out swapped every other time")
+    run.ob("C15.input", P.module("dagrt.codegen.dag_ast"), None, True,
+           construct=f"scanned {n_funcs} functions of the generators, passes and kind inference "
+                     f"for in-place changes of parameter fields: {len(hits)} found",
+           why="scan summary")
+    # positive control
+    m2 = P2.module("dagrt._verif_control")
+    bad = _input_mutations(m2.functions["_control_mutates"])
+    good = _input_mutations(m2.functions["_control_copies"])
+    run.ob("C15.input", (m2.relpath, "_control_mutates", 14), None, bool(bad),
+           construct="control: loops = statement.loops; loops.reverse()",
+           why="the scan must report the control on every run (non-vacuity)")
+    run.ob("C15.input", (m2.relpath, "_control_copies", 20), None, not good,
+           construct="control twin: loops = list(statement.loops); loops.reverse()",
+           why="a copy may be changed")
+    if not bad or good:
+        raise AnalysisError("C15.input positive control failed")
+
+# }}}
 
 
 # {{{ order-dependent decisions inside unordered loops
@@ -514,6 +624,20 @@ def _alias_feeds(P, c: Class, meth: Func, pname):
                         arg = kw.value
                 if arg is None and idx is not None and idx < len(call.args):
                     arg = call.args[idx]
+                if isinstance(arg, ast.Attribute) and isinstance(arg.value, ast.Name) \
+                        and arg.value.id in ("self", "cls") and f.cls is not None:
+                    # class-level mutable of the caller's class
+                    for k in P.mro(f.cls):
+                        v = k.attrs.get(arg.attr)
+                        if v is not None and _is_mutable_literal(v):
+                            feeds.append(f"class-level {k.name}.{arg.attr} at {f.qualname}")
+                            break
+                elif isinstance(arg, ast.Attribute) and isinstance(arg.value, ast.Name):
+                    k = P.resolve_name(f, arg.value.id)
+                    if isinstance(k, Class):
+                        v = k.attrs.get(arg.attr)
+                        if v is not None and _is_mutable_literal(v):
+                            feeds.append(f"class-level {k.name}.{arg.attr} at {f.qualname}")
                 if isinstance(arg, ast.Name):
                     # module-level mutable (here or imported)
                     if arg.id in mutable_globals:
